@@ -47,7 +47,7 @@ func shapeFan(ns []*shNode) int {
 	f := 0
 	for _, s := range ns {
 		switch s.K {
-		case "call", "children":
+		case "call", "legacycall", "children":
 			f++
 		case "callblock":
 			f += 1 + 2*shapeFan(s.Body)
@@ -112,7 +112,7 @@ func (m *c13model) evalShape(ns []*shNode, n *Node, ch thunk, nOnce int) []strin
 			if ch != nil {
 				out = append(out, ch()...)
 			}
-		case "call":
+		case "call", "legacycall":
 			out = append(out, m.eval(param(s.I), nil)...)
 		case "callblock":
 			out = append(out, m.eval(param(s.I), func() []string { return m.evalShape(s.Body, n, ch, nOnce) })...)
@@ -167,6 +167,8 @@ func describeShape(ns []*shNode) string {
 			parts = append(parts, "{children...}")
 		case "call":
 			parts = append(parts, fmt.Sprintf("@p[%d]", s.I))
+		case "legacycall":
+			parts = append(parts, fmt.Sprintf("{! p[%d] }", s.I))
 		case "callblock":
 			parts = append(parts, fmt.Sprintf("@p[%d]{ %s }", s.I, describeShape(s.Body)))
 		case "if", "switch":
